@@ -63,6 +63,7 @@ func startServer(flags []string) (*server, error) {
 }
 
 func main() {
+	mode := flag.String("mode", "replay", "replay|stress")
 	in := flag.String("in", "", "behaviour file")
 	out := flag.String("out", "", "result file")
 	cfgs := flag.String("cfg", "{}", "json config")
@@ -76,6 +77,10 @@ func main() {
 	var cfg config
 	if err := json.Unmarshal([]byte(*cfgs), &cfg); err != nil {
 		res.Inconclusive = append(res.Inconclusive, "bad cfg: "+err.Error())
+		finish()
+	}
+	if *mode == "stress" {
+		runStress(*cfgs, res)
 		finish()
 	}
 	bs, err := vlib.ReadBehaviours(*in)
